@@ -1265,54 +1265,45 @@ CAT_CONF = [['status = SKIP'], ['status = FAIL'], ['actor = null'], ['actor = so
             ['actor = source % sh', 'home = hd'], ['status = FAIL', 'act-home = hd']]
 
 
-def gen_cat_family(rng, first=()):
-    """-> a self-contained family: suite phase contents, cases (conf lines, definitions), orders.
-    [first]: catalog entries that must be part of it (the caller walks through the whole catalog)"""
-    entries = list(first)
-    for e in rng.sample(CATALOG, rng.choice([0, 0, 1]) if entries else rng.choice([1, 2, 2, 3])):
-        if e not in entries:
+def gen_cat_family(rng, main):
+    """-> a self-contained family around one catalog entry [main]: suite phase contents, 4 cases, orders.
+    The cases are built so that what an instruction object of the suite might keep from one case is wrong for another:
+    case 0 and case 1 define the symbols of the entry with two DIFFERENT valid values, case 2 defines one of them WRONGLY
+    (not at all / wrong type / wrong relativity / unparsable), case 3 is random and (60%) sets status / actor / home /
+    act-home in its own [conf].  30%: a second catalog entry (after the main one, so that it cannot mask it)."""
+    entries = [main]
+    if rng.chance(0.3):
+        e = rng.choice(CATALOG)
+        if e is not main:
             entries.append(e)
     suite = {}
     for _, phases, _ in entries:
         for ph, lines in phases.items():
             suite.setdefault(ph, []).extend(lines)
-    n = rng.randint(3, 4)
+    a = rng.below(2)
     cases = []
-    for i in range(n):
+    for i in range(4):
         defs = []
         for _, _, syms in entries:
             names = list(syms)
-            coupled = rng.below(3) if rng.chance(0.6) else None  # the same variant for all symbols of the entry: they fit together
+            wrong = rng.choice(names) if i == 2 or (i == 3 and rng.chance(0.3)) else None
+            j = [a, 1 - a, a, rng.below(3)][i] if rng.chance(0.85) or i < 2 else rng.below(3)
             for name in names:
                 valid, invalid = syms[name]
-                if rng.chance(0.22):
-                    d = rng.choice(invalid)  # wrongly defined: not at all, or with a type / value the reference does not accept
-                else:
-                    j = coupled if coupled is not None else rng.below(len(valid))
-                    d = valid[min(j, len(valid) - 1)] if coupled is not None else valid[j]
+                d = rng.choice(invalid) if name == wrong else valid[min(j, len(valid) - 1)]
                 if d is not None:
                     defs.append(d)
-        conf = list(rng.choice(CAT_CONF)) if rng.chance(0.35) else []
+        conf = list(rng.choice(CAT_CONF)) if rng.chance(0.6 if i == 3 else 0.1) else []
         cases.append({'conf': conf, 'defs': defs})
-    idx = list(range(n))
-    orders = []
-    for _ in range(3):
-        o = list(idx)
-        rng.shuffle(o)
-        if o not in orders:
-            orders.append(o)
-    rep = list(idx)
-    rng.shuffle(rep)
-    orders.append(rep + [rep[0]])
+    last = [0, 1, 2, 3]
+    rng.shuffle(last)
+    orders = [[0, 1, 2, 3], [3, 2, 1, 0], last + [last[0]]]
     fam = {'entries': [e[0] for e in entries], 'suite': suite, 'cases': cases, 'orders': orders}
     if rng.chance(0.3):
-        # the suite sets a preprocessor (a filter over the case file that fails on a marked case); some cases are marked
+        # the suite sets a preprocessor (a filter over the case file that fails on a marked case); one case is marked
         fam['suite']['conf'] = [CAT_PREPROCESSOR]
         fam['entries'].append('preprocessor')
-        for c in cases:
-            c['pp_fail'] = rng.chance(0.3)
-        if not any(c['pp_fail'] for c in cases):
-            cases[rng.below(len(cases))]['pp_fail'] = True
+        cases[rng.below(len(cases))]['pp_fail'] = True
     return fam
 
 
@@ -1512,12 +1503,11 @@ def run(ctx, res, scale=1):
             if any(sc['m2'] or sc['usages'] for sc in h['scripts']):
                 res.nontrivial.add(json.dumps([obs['case_files'], h['order'], h['mode']], sort_keys=True))
     # ---- experiment 4 (the regression corpus first)
-    n_cat = (30 if ctx.quick else 300) * scale
+    # one family around EVERY entry of the catalog in quick, five in thorough (the walk through the catalog is shuffled)
     walk = list(CATALOG)
     rng.shuffle(walk)
-    walk = walk * (1 + 2 * n_cat // len(walk))
-    # every entry of the catalog is part of some family of every run: two consecutive entries of a shuffled walk per family
-    cats = load_corpus() + [gen_cat_family(rng, first=walk[2 * i:2 * i + 2]) for i in range(n_cat)]
+    walk = walk * ((1 if ctx.quick else 5) * scale)
+    cats = load_corpus() + [gen_cat_family(rng, e) for e in walk]
     for fam, (st, obs) in zip(cats, run_parallel(ctx, 'cat', cats)):
         if st != 'ok':
             res.errors.append('catalog experiment failed to run: ' + obs)
@@ -1580,14 +1570,16 @@ def run(ctx, res, scale=1):
                 'exists, and in setup set / unset variables through InstructionSettings and SetupSettingsBuilder, set the timeout, put '
                 'symbols, chdir in and out of the sandbox, create files; every view (environment, act environment, timeout, symbols, '
                 'cwd, files) is recorded at validation, at the start of setup and in cleanup. non-trivial / distinct likewise. '
-                'exp4: the regression corpus, then families of 3-4 cases under a suite whose before-assert / assert / cleanup contents are '
-                '1-3 entries of a catalog of @N@ instruction shapes (stdout / stderr / exit-code / contents / exists / dir-contents / run / '
+                'exp4: the regression corpus, then one family (five in thorough) around EVERY entry of a catalog of @N@ instruction shapes: '
+                '4 cases under a suite whose before-assert / assert / cleanup contents are that entry (30%: plus a second one)  (stdout / stderr / exit-code / contents / exists / dir-contents / run / '
                 '$ / % / def / file / dir / copy / env / cd / timeout; a symbol reference as integer expression, string, here-document, '
                 'regex, glob, line-number range, path, -rel SYMBOL, list, program argument, -stdin, FILE-LIST entry, files-source, and as '
                 'reference to a text-transformer / text-matcher / line-matcher / integer-matcher / file-matcher / files-matcher / program '
-                '/ text-source symbol); each case defines each symbol with one of 2-3 different values or (22%) wrongly (not at all, '
-                'wrong type, unparsable value); 35% of the cases set status / actor / home / act-home in their own [conf]; 4 orders '
-                '(one with a repeated case), each as suite run and as consecutive --suite runs of one MainProgram, against every case '
+                '/ text-source symbol, as operand of && / || / ! / | in compound matchers and transformers, and two or more '
+                'symbol-referencing arguments per instruction); cases 0 and 1 define the symbols with two different valid values, case 2 '
+                'one of them wrongly (not at all, wrong type, wrong relativity, unparsable value), case 3 at random and (60%) with status '
+                '/ actor / home / act-home in its own [conf]; 30%: the suite sets a preprocessor that fails on one marked case; 3 orders '
+                '(forward, backward, shuffled with a repeated case), each as suite run and as consecutive --suite runs of one MainProgram, against every case '
                 'alone with --suite in a fresh process. all non-trivial; distinct := distinct (files, order, mode).').replace('@N@', str(len(CATALOG)))
     res.evaluations = len(terms)
     by_exp = {}
